@@ -28,6 +28,8 @@ type C11Case struct {
 	// the values are still given attached (--opt=value), so they, not the
 	// optional value, are what the command line denotes
 	OptVal *string `json:"optval,omitempty"`
+	// Opts: parser option bits (they must not change what a value denotes)
+	Opts uint `json:"opts,omitempty"`
 }
 
 var _ = Register("C11", func() interface{} { return new(C11Case) }, func(c interface{}) string { return c11Oracle(c.(*C11Case)) })
@@ -213,6 +215,20 @@ func genC11(t *rapid.T) *C11Case {
 	if k.IsFunc() || (k == KTri && c.Via == "default") {
 		c.Via = "arg"
 	}
+	c.Opts = uint(rapid.SampledFrom([]flags.Options{flags.None, flags.None, flags.IgnoreUnknown, flags.PassDoubleDash, flags.PassAfterNonOption, flags.IgnoreUnknown | flags.PassDoubleDash}).Draw(t, "parserOpts"))
+	if c.Via == "arg" && rapid.IntRange(0, 4).Draw(t, "shortAttached") == 0 {
+		// the value attached to the short name (-oVALUE); an empty value or one
+		// starting with "=" would be a different token
+		ok := true
+		for _, tx := range append(append([]string{}, c.More...), c.Value) {
+			if tx == "" || tx[0] == '=' {
+				ok = false
+			}
+		}
+		if ok {
+			c.Via = "short"
+		}
+	}
 	if c.Via == "sep" {
 		// the value as a separate token (--opt VALUE): a token starting with a
 		// dash is only taken as the value when it is a negative number of the
@@ -263,7 +279,7 @@ func c11Decl(c *C11Case) *Decl {
 	}
 	// bystanders declared before and after the option, in a nested group and in
 	// a sub-command: a diagnostic must name the option at fault, not one of them
-	d := &Decl{Root: Cmd{ID: "root", Name: "app", SubOpt: true}}
+	d := &Decl{Opts: c.Opts, Root: Cmd{ID: "root", Name: "app", SubOpt: true}}
 	d.Root.G.Groups = []Group{{Field: "G0", Desc: "Application Options",
 		Options: []Opt{{ID: "b1", Field: "Before", Kind: KString, Short: "a", Long: "aaa", Defaults: []string{"x"}}, o, {ID: "b2", Field: "After", Kind: KInt, Short: "z", Long: "zzz", Defaults: []string{"1"}}},
 		Groups:  []Group{{Field: "G1", Desc: "Nested", Options: []Opt{{ID: "b3", Field: "Nested", Kind: KFloat64, Long: "nnn"}}}}}}
@@ -285,6 +301,10 @@ func c11Oracle(c *C11Case) string {
 	case "sep":
 		for _, tx := range texts {
 			args = append(args, "--opt", tx)
+		}
+	case "short":
+		for _, tx := range texts {
+			args = append(args, "-o"+tx)
 		}
 	case "env":
 		env = map[string]string{"VPC11_OPT": strings.Join(texts, ",")}
